@@ -26,9 +26,16 @@ using namespace tbox; using namespace tbox::eventx;
 #define NTASK 1
 #endif
 static int ran[2], done[2], ran_on_main[2], order_seq, ran_order[2]; static pthread_t main_tid; static int body_after_cb[2];
+#ifdef STRICT      // see work_thread.cpp
+#include <atomic>
+static std::atomic<int> a_ran; static int nf_ran = -1;
+#endif
 extern "C" void h_pool() {
     for (int i = 0; i < 2; i++) { ran[i] = done[i] = ran_on_main[i] = 0; ran_order[i] = -1; body_after_cb[i] = 0; } order_seq = 0;
     main_tid = pthread_self();
+#ifdef STRICT
+    a_ran.store(0); nf_ran = -1;
+#endif
     SafeLoop loop; ThreadPool tp(&loop);
     VP_ASSERT(tp.initialize(MINT, MAXT), "initialize");
     ThreadPool::TaskToken tok[2];
@@ -37,7 +44,11 @@ extern "C" void h_pool() {
 #if NTASK == 2
         prio[t] = nondet_bool() ? 1 : 0;                           // two priority levels (smaller value = higher priority)
 #endif
-        tok[t] = tp.execute([t] { if (pthread_equal(pthread_self(), main_tid)) ran_on_main[t] = 1; ran_order[t] = order_seq++; ran[t]++; },
+        tok[t] = tp.execute([t] { if (pthread_equal(pthread_self(), main_tid)) ran_on_main[t] = 1; ran_order[t] = order_seq++; ran[t]++;
+#ifdef STRICT
+            if (t == 0) a_ran.store(1);
+#endif
+            },
                             [t] { if (ran[t] == 0) body_after_cb[t] = 1; done[t]++; }, prio[t]);
         VP_ASSERT(!tok[t].isNull(), "task accepted");
     }
@@ -45,8 +56,14 @@ extern "C" void h_pool() {
     unsigned op = nondet_uchar(); VP_ASSUME(op <= 2);                 // what the loop thread does next, concurrently with the workers
     if (op == 1) { ThreadPool::TaskStatus s = tp.getTaskStatus(tok[0]); if (s == ThreadPool::TaskStatus::kNotFound) saw_notfound = true; }
     else if (op == 2) { int r = tp.cancel(tok[0]); if (r == 0) cancelled = true; if (r == 2) said_running = true; if (r == 1) saw_notfound = true; }
+#ifdef STRICT
+    if (saw_notfound) nf_ran = a_ran.load();
+#endif
     tp.cleanup();                                                     // a hang here (worker never woken) is reported by the engine as a deadlock
     loop.drain();
+#ifdef STRICT
+    if (saw_notfound) VP_ASSERT(nf_ran == 1 || ran[0] == 0, "when a task is reported as not found its body has already run, or it never runs");
+#endif
     for (int t = 0; t < NTASK; t++) {
         VP_ASSERT(ran[t] <= 1, "a task is executed at most once");
         VP_ASSERT(!ran_on_main[t], "a task is never executed on the loop thread");
@@ -81,4 +98,29 @@ extern "C" void h_pool_fifo() {
     if (c == 0) { VP_ASSERT(g_nseq == 3 && g_seq[0] == 0 && g_seq[1] == 2 && g_seq[2] == 3, "waiting tasks of one priority run first-in-first-out; the cancelled one never runs"); }
     else { VP_ASSERT(g_nseq == 4 && g_seq[0] == 0 && g_seq[1] == 1 && g_seq[2] == 2 && g_seq[3] == 3, "waiting tasks of one priority run first-in-first-out"); }
     VP_REACH("pool_fifo");
+}
+
+// priority order: the single worker is kept busy; three tasks with symbolic priorities - including values outside the documented range
+// [THREAD_POOL_PRIO_MIN, THREAD_POOL_PRIO_MAX], which are accepted and treated as the nearest bound - wait behind it; once the gate opens
+// they must run by (effective priority, submission order).
+extern "C" void h_pool_prio() {
+    g_gate_open = false; g_last_done = false; g_nseq = 0;
+    SafeLoop loop; ThreadPool tp(&loop);
+    VP_ASSERT(tp.initialize(1, 1), "initialize");
+    int prio[4]; prio[0] = 0;
+    for (int i = 1; i <= 3; i++) { unsigned u = nondet_uchar(); VP_ASSUME(u <= 6); prio[i] = (int)u - 3; }      // -3 .. 3
+    static int S_done;  S_done = 0;
+    auto body = [](int id) { return [id] { std::unique_lock<std::mutex> lk(g_m); if (id == 0) g_cv.wait(lk, [] { return g_gate_open; }); g_seq[g_nseq++] = id; if (g_nseq == 4) { g_last_done = true; g_cv.notify_all(); } }; };
+    for (int i = 0; i <= 3; i++) { ThreadPool::TaskToken t = tp.execute(body(i), prio[i]); VP_ASSERT(!t.isNull(), "task accepted (also with an out-of-range priority)"); }
+    { std::unique_lock<std::mutex> lk(g_m); g_gate_open = true; g_cv.notify_all(); g_cv.wait(lk, [] { return g_last_done; }); }
+    tp.cleanup();
+    VP_ASSERT(g_nseq == 4, "all four tasks ran");
+    // task 0 either was picked before the others were queued (first), or competes by priority like the rest
+    for (int a = 0; a < 4; a++) for (int b = a + 1; b < 4; b++) {
+        int x = g_seq[a], y = g_seq[b];               // x ran before y
+        if (x == 0 && a == 0) continue;               // the gate task may have been picked before the others arrived
+        int px = prio[x] < -2 ? -2 : (prio[x] > 2 ? 2 : prio[x]), py = prio[y] < -2 ? -2 : (prio[y] > 2 ? 2 : prio[y]);
+        VP_ASSERT(px < py || (px == py && x < y), "waiting tasks are picked in priority order (smaller value first, out-of-range values clamped) and first-in-first-out within a priority");
+    }
+    VP_REACH("pool_prio");
 }
